@@ -159,7 +159,7 @@ class StorageSetup(Contract):
             elif isinstance(A, Havoc) or isinstance(b, Havoc) or isinstance(ct, Havoc):
                 yield ('C05.storage.rows', A if isinstance(A, Havoc) else Havoc('rows not modelled'))
             else:
-                nrows = 2 * n + 2 * nb
+                nrows = S.ite(one, 2 * n, 2 * n + 2 * nb)     # binaries and their rows only in the two-variable form
                 Ash = A.get('shape') if isinstance(A, Obj) else (A.nr, A.nc)
                 yield ('C07.storage.shape', S.implies(S.gt(n, 0), lambda: S.and_(S.eq(Ash[0], nrows), S.eq(Ash[1], nv), S.eq(b.n, nrows),
                                                                                   S.eq(S.str_len(ct), nrows))))
